@@ -58,7 +58,8 @@ type scenario struct {
 	Jitter  int64  `json:"jitter"`
 	Handler bool   `json:"handler"`
 	HMode   int    `json:"hmode"` // 0: the driver's handler; 1: none (the library reports the panic itself); 2: goz.LogPanic; 3: set, then reset with nil
-	PKind   int    `json:"pkind"` // panic value: 0 the task number; 1 an error whose Error method panics; 2 a Stringer whose String method panics
+	PKind   int    `json:"pkind"`
+	Nils    []bool `json:"nils"` // per task: a nil func() is submitted (honoured only without a driver handler) // panic value: 0 the task number; 1 an error whose Error method panics; 2 a Stringer whose String method panics
 }
 
 // panic values that misbehave when they are printed
@@ -157,6 +158,15 @@ func runScenario(sc scenario, out func(map[string]interface{})) {
 	go func() {
 		for i := 1; i <= k; i++ {
 			r.log(map[string]interface{}{"ev": "gocall", "i": i})
+			if sc.HMode != 0 && i-1 < len(sc.Nils) && sc.Nils[i-1] {
+				// a nil function: calling it panics inside the library's Recover, which must treat it as any other
+				// panicking function (handler, slot and bookkeeping released)
+				l.Go(nil)
+				r.log(map[string]interface{}{"ev": "goret", "i": i})
+				r.log(map[string]interface{}{"ev": "nilfn", "i": i})
+				atomic.AddInt32(&returned, 1)
+				continue
+			}
 			l.Go(body(i, sc.Blocks[i-1], sc.Panics[i-1]))
 			r.log(map[string]interface{}{"ev": "goret", "i": i})
 			atomic.AddInt32(&returned, 1)
@@ -427,6 +437,72 @@ func reuseScenario(rng *rand.Rand, out func(map[string]interface{})) {
 	r.mu.Unlock()
 }
 
+// multiScenario: several goroutines submit to one limiter at the same time (Wait only after all of them are done).
+// The functions log enter / exit around a very short body, so the slots turn over constantly and the submitters
+// race for the last free one; the verdict is the usual one (never more than the limit inside by the stamps).
+func multiScenario(rng *rand.Rand, out func(map[string]interface{})) {
+	r := &run{}
+	n := 1 + rng.Intn(3)
+	subs, per := 2+rng.Intn(3), 70
+	r.log(map[string]interface{}{"ev": "new", "n": n, "scenario": map[string]interface{}{"submitters": subs, "limit": n}})
+	l := goz.NewLimiter(n)
+	l.SetPanicHandler(func(v any) { r.log(map[string]interface{}{"ev": "handler", "v": v}) })
+	var wg sync.WaitGroup
+	var spin int32
+	for sb := 0; sb < subs; sb++ {
+		wg.Add(1)
+		go func(sb int, seed int64) {
+			defer wg.Done()
+			lr := rand.New(rand.NewSource(seed))
+			for k := 0; k < per; k++ {
+				id := 1 + sb*per + k
+				w := 200 + lr.Intn(3000)
+				r.log(map[string]interface{}{"ev": "gocall", "i": id})
+				l.Go(func() {
+					r.log(map[string]interface{}{"ev": "enter", "i": id})
+					for j := 0; j < w; j++ {
+						atomic.AddInt32(&spin, 1)
+					}
+					r.log(map[string]interface{}{"ev": "exit", "i": id, "panic": false})
+				})
+				r.log(map[string]interface{}{"ev": "goret", "i": id})
+			}
+		}(sb, rng.Int63())
+	}
+	done := make(chan struct{})
+	go func() { wg.Wait(); close(done) }()
+	ok := true
+	select {
+	case <-done:
+	case <-time.After(patience):
+		stuckOnce = true
+		r.log(map[string]interface{}{"ev": "stuck", "what": "concurrent submitters did not get through"})
+		ok = false
+	}
+	if ok {
+		wd := make(chan struct{})
+		go func() {
+			r.log(map[string]interface{}{"ev": "waitcall"})
+			l.Wait()
+			r.log(map[string]interface{}{"ev": "waitret"})
+			close(wd)
+		}()
+		select {
+		case <-wd:
+			r.log(map[string]interface{}{"ev": "end", "submitted": subs * per})
+		case <-time.After(patience):
+			stuckOnce = true
+			r.log(map[string]interface{}{"ev": "stuck", "what": "Wait did not return although every function ended"})
+		}
+	}
+	r.mu.Lock()
+	sort.Slice(r.events, func(a, b int) bool { return r.events[a].at < r.events[b].at })
+	for _, e := range r.events {
+		out(e.m)
+	}
+	r.mu.Unlock()
+}
+
 func churnScenario(rng *rand.Rand, k int, out func(map[string]interface{})) {
 	n := 1 + rng.Intn(3)
 	l := goz.NewLimiter(n)
@@ -526,6 +602,7 @@ func main() {
 			sc.Panics = append(sc.Panics, rng.Intn(3) == 0)
 			sc.Blocks = append(sc.Blocks, rng.Intn(4) != 0)
 			sc.Ends = append(sc.Ends, []int{0, 0, 0, 2, 3}[rng.Intn(5)])
+			sc.Nils = append(sc.Nils, rng.Intn(6) == 0)
 		}
 		sc.Order = rng.Perm(k)
 		for i := range sc.Order {
@@ -537,6 +614,15 @@ func main() {
 		}
 		if s%40 == 7 {
 			churnScenario(rng, churnRounds, func(m map[string]interface{}) {
+				b, _ := json.Marshal(m)
+				f.Write(b)
+				f.Write([]byte("\n"))
+				events++
+			})
+			continue
+		}
+		if s%10 == 3 {
+			multiScenario(rng, func(m map[string]interface{}) {
 				b, _ := json.Marshal(m)
 				f.Write(b)
 				f.Write([]byte("\n"))
